@@ -28,6 +28,8 @@ Max2(a, b) == IF a > b THEN a ELSE b
 
 AllEqual(d) == \A k \in DOMAIN d : d[k] \in {"equal", "skip"}
 ObsStats(e) == [k \in DOMAIN ZeroStats |-> e.stats[k]]
+(* only the request counters are accumulated over the trace (StatsPartition); byte counters are checked per line *)
+Counts(d) == [d EXCEPT !.pre = 0, !.compb = 0, !.uncompb = 0]
 
 TInit == Init /\ l = 1 /\ TLCSet(1, 0)
 
@@ -42,7 +44,7 @@ TRefused == /\ l <= Len(Trace) /\ Ev.enc_err /\ l' = l + 1
             /\ ~Encodable(Ev.o)                                   \* only a request that cannot be marshalled may be refused
             /\ ObsStats(Ev) = StatsDelta(Ev.o, Ev.u, Ev.out)
             /\ pc' = "idle" /\ req' = Ev.o /\ wire' = NoWire /\ dec' = "none"
-            /\ st' = AddStats(st, ObsStats(Ev)) /\ nreq' = nreq + 1
+            /\ st' = AddStats(st, Counts(ObsStats(Ev))) /\ nreq' = nreq + 1
             /\ nerr' = nerr + (IF IsReq(Ev.o) THEN 1 ELSE 0)
 
 TCase == /\ l <= Len(Trace) /\ ~Ev.enc_err /\ l' = l + 1
@@ -50,7 +52,7 @@ TCase == /\ l <= Len(Trace) /\ ~Ev.enc_err /\ l' = l + 1
          /\ pc' = "decoded" /\ req' = Ev.o
          /\ wire' = [type |-> Ev.o.type, flag |-> Ev.flag, body |-> Ev.enc, payload |-> Ev.o.param]
          /\ dec' = IF AllEqual(Ev.dec) THEN Ev.o.param ELSE "error"
-         /\ st' = AddStats(st, ObsStats(Ev)) /\ nreq' = nreq + 1 /\ UNCHANGED nerr
+         /\ st' = AddStats(st, Counts(ObsStats(Ev))) /\ nreq' = nreq + 1 /\ UNCHANGED nerr
 
 TSpec == TInit /\ [][TRefused \/ TCase]_tvars
 
